@@ -11,7 +11,9 @@ LEVEL_NOTE = [
     "A2: `re` semantics of the four numeric patterns (hand-specialised matchers in the model)",
 ]
 PARTIAL = [
-    "C11.float_valid (decimal floating constants of every shape), char_valid / char_escape_valid / char_octal_valid / char_hex_valid (plain characters; simple, octal and hexadecimal escapes with any number of digits; every encoding prefix) string_valid (opaque bodies), string_units_valid (string bodies of any length mixing plain characters with simple, octal and hexadecimal escapes, Proofs/StringEscapes.lean) and hexfloat_valid (every well-formed hexadecimal floating constant) are proved; `\\?` inside a string and the per-family C11_F_reported theorems are not proved yet: they are decided per input by the correspondence and by the independent recogniser below; closed witnesses of each malformed family are proved by kernel evaluation in Properties/C11.lean",
+    "proved valid: C11.int_valid, float_valid, hexfloat_valid, char_valid / char_escape_valid / char_octal_valid / char_hex_valid, string_valid, string_units_valid (bodies of any length mixing plain characters with simple, octal and hexadecimal escapes)",
+    "proved reported (every malformed family the property names, unbounded members, exact list of added diagnostics): int_token / int_unknown_suffix_reported / int_bad_octal_digit_reported / int_bad_binary_digit_reported (Proofs/IntReport.lean), bad_exponent_reported / multiple_dots_reported (Proofs/BadFloats.lean), empty_char_reported / char_eof_reported / char_eol_reported / string_eof_reported (Proofs/BadLiterals.lean)",
+    "not proved: `\\?` inside a string, unknown suffixes of floating constants (the tool's table is a superset of the standard's) and the malformed hexadecimal-float codes (closed witnesses only): decided per input by the correspondence and by the independent recogniser below",
 ]
 
 ISUF = ["", "u", "U", "l", "L", "ll", "LL", "z", "Z", "wb", "WB", "i64", "I64", "ul", "uL", "Ul", "UL", "lu", "lU", "Lu", "LU",
